@@ -469,7 +469,7 @@ def generate(template_text, canary=False):
                 out.append(tw)
                 out_lines += tw.count('\n') + 1
             if (ex.kind in ('fn', 'closure') and ex.cfg == 'debug' and not ex.external_body and not ex.no_release_variant
-                    and re.search(r'\bdebug_assert|cfg\(\s*(not\()?\s*debug_assertions', mask(ex.meta['orig']))):
+                    and re.search(r'\bdebug_assert|cfg!?\(\s*(not\()?\s*debug_assertions', mask(ex.meta['orig']))):
                 # the same body as rustc compiles it with debug assertions off: debug_assert!s and cfg(debug_assertions)
                 # items erased.  Emitted next to the debug variant under the same contract, so both build
                 # configurations generate obligations.
